@@ -14,17 +14,17 @@ Theorem C20_second_pass_same_tokens : forall ts e, parse ts = ROk (PE e) [] ->
   exists e', parse (pr e) = ROk (PE e') [] /\ pr e' = pr e.
 Proof. intros ts e H. destruct (parsed_roundtrip_closed ts e H) as (A & B & _). exists (dedup e). auto. Qed.
 
-(* print (parse (print e)) = print e, for every tree whose operand positions are readable *)
+(* print (parse (print e)) = print e, for every well-formed tree except a lambda whose body prints with a leading parenthesis *)
 Theorem C20_print_parse_print_partial : forall e,
-  validb e = true -> posokb e = true -> exists e', parse (pr e) = ROk (PE e') [] /\ pr e' = pr e.
-Proof. intros e V K. exists (norm e). split; [now apply roundtrip_closed|apply (pr_norm (sz e)); auto]. Qed.
+  validb e = true -> lamokb e = true -> exists e', parse (pr e) = ROk (PE e') [] /\ pr e' = pr e.
+Proof. intros e V K. exists (norm e). split; [now apply roundtrip_lamok_closed|apply (pr_norm (sz e)); auto]. Qed.
 
 (* the parenthesised tree is a fixed point: nothing more is inserted the second time *)
 Theorem C20_norm_idempotent : forall e, validb e = true -> pr (norm (norm e)) = pr (norm e) /\ pr (norm e) = pr e.
 Proof. exact norm_print_stable. Qed.
 
 Definition ex : expr := EBin xgo_MUL (EBin xgo_ADD (EId [97%N]) (EId [98%N])) (EUn xgo_SUB (EBin xgo_SUB (EId [97%N]) (EId [98%N]))).
-Example C20_example : validb ex = true /\ posokb ex = true /\ norm ex <> ex /\ pr (norm ex) = pr ex /\
+Example C20_example : validb ex = true /\ lamokb ex = true /\ norm ex <> ex /\ pr (norm ex) = pr ex /\
   parse (pr (norm ex)) = ROk (PE (norm ex)) [].
 Proof. vm_compute. repeat split; try reflexivity. discriminate. Qed.
 
